@@ -71,6 +71,23 @@ class FakeMP(object):
     def os_proxy(self, real_os):
         return OsProxy(self, real_os)
 
+    def sigint_group(self, sigproxy):
+        """SIGINT delivered to every process of the group (Ctrl-C in the terminal): a process with the default disposition
+        gets KeyboardInterrupt at its next scheduling point, one that ignores the signal does not notice."""
+        import signal as real_signal
+        for p in self.processes:
+            if not p.alive_quiet():
+                continue
+            handler = p.__dict__.get('signal_handlers', {}).get(real_signal.SIGINT, real_signal.SIG_DFL)
+            if handler is real_signal.SIG_IGN:
+                self.sim.run.probe('worker_ignores_sigint')
+                continue
+            self.sim.interrupt(p.task, KeyboardInterrupt())
+
+    def signal_proxy(self):
+        import signal as real_signal
+        return SignalProxy(self, real_signal)
+
 
 class FakeEvent(SimEvent):
     """multiprocessing.Event: shared between parent and children.  As in multiprocessing.synchronize.Condition, a
@@ -356,6 +373,33 @@ def fork_copy(owner):
         if forker is not None:
             setattr(child, name, forker())
     return child
+
+
+class SignalProxy(object):
+    """`signal` as seen by equalizer.py: handlers installed by a simulated process are recorded on that process (the
+    real signal.signal only works in the main thread of the interpreter); everything else is the real module."""
+
+    def __init__(self, mp, real_signal):
+        self._mp = mp
+        self._signal = real_signal
+        self.parent_handlers = {}
+
+    def signal(self, signum, handler):
+        proc = self._mp.current_proc()
+        table = self.parent_handlers if proc is None else proc.__dict__.setdefault('signal_handlers', {})
+        old = table.get(signum, self._signal.SIG_DFL)
+        table[signum] = handler
+        if signum == getattr(self._signal, 'SIGTERM', None) and proc is not None and handler is not self._signal.SIG_DFL:
+            proc.ignores_sigterm = True
+        return old
+
+    def getsignal(self, signum):
+        proc = self._mp.current_proc()
+        table = self.parent_handlers if proc is None else proc.__dict__.get('signal_handlers', {})
+        return table.get(signum, self._signal.SIG_DFL)
+
+    def __getattr__(self, name):
+        return getattr(self._signal, name)
 
 
 class OsProxy(object):
